@@ -33,9 +33,11 @@ def ExactAt (p : ProgF) (cfg : Config) (n : Nat) : Prop :=
 def InitExact (p : ProgF) (cfg : Config) : Prop :=
   cfg.init = true → ∃ n, ExactAt p cfg n
 
-/-- Decidable hypothesis on the explicit table size: every state and every colour that the program
-    mentions — in a key or inside an instruction — is below `params`. -/
+/-- Decidable hypothesis on the explicit table size: it has at least the start state 0 and the
+    blank colour 0, and every state and every colour that the program mentions — in a key or inside
+    an instruction — is below `params`. -/
 def paramsCover (p : Prog) (params : Nat × Nat) : Bool :=
+  decide (0 < params.1) && decide (0 < params.2) &&
   p.all fun kv =>
     decide (kv.1.1 < params.1) && decide (kv.1.2 < params.2) &&
     decide (kv.2.1 < params.2) && decide (kv.2.2.2 < params.1)
